@@ -6,9 +6,12 @@ theorem inv_wpark (n : Nat) (sh : Sh) (fpc : FPc) (pcs : Tid → JPc) (t : Tid) 
     (hlt : t < n) (h : Inv ⟨n, sh, fpc, pcs⟩) (hpc : pcs t = .wpark k b) (sh' : Sh) (pc' : JPc)
     (hts : jstep sh (.wpark k b) e = some (sh', pc')) : Inv ⟨n, sh', fpc, upd pcs t pc'⟩ := by
   jstart
-  simp only [jstep] at hts
-  split at hts
-  · cases k <;> simp only [contK] at hts <;> jdone
-  · contradiction
+  cases e
+  case abort => simp only [jstep] at hts; jdone
+  all_goals
+    simp only [jstep] at hts
+    split at hts
+    · cases k <;> simp only [contK] at hts <;> jdone
+    · contradiction
 
 end MayVerif.Join
